@@ -210,6 +210,16 @@ type RandomWalk struct {
 
 //go:norace
 func (w *RandomWalk) Task(cands []*kern.Task) int {
+	if len(cands) > 1 && cands[0].Handoff {
+		// the running task is at a lock operation on a lock others are waiting for
+		// (it released it, or is about to take it again): half of the time one of the
+		// others goes first - windows in which a lock is dropped for a moment are as
+		// wide as one decision
+		if w.R.IntN(2) == 0 {
+			return 1 + w.R.IntN(len(cands)-1)
+		}
+		return 0
+	}
 	if w.R.Float64() < w.Stick {
 		return 0
 	}
